@@ -208,6 +208,9 @@ func (w *MutWorld) run(fn *ssa.Function, seed map[ssa.Value]Taint, useSources bo
 			return p
 		}
 		p := AccessPath(v)
+		if p == "" {
+			p = syntheticPath(v)
+		}
 		pathOf[v] = p
 		return p
 	}
@@ -663,4 +666,43 @@ func (w *MutWorld) callSinks(fn *ssa.Function, call *ssa.Call, get func(ssa.Valu
 			add(call, kind, fmt.Sprintf("%s(#%d = %s): %s", ModRel(FuncQName(callee)), i, what, sum.WritesWhat[i]))
 		}
 	}
+}
+
+// syntheticPath names a location below a value that has no source-level access path (the result of
+// a call, a type assertion of one, a fresh allocation): "@t12.Segments". SSA names are unique within
+// a function, which is the scope the path is used in.
+func syntheticPath(v ssa.Value) string {
+	suffix := ""
+	for depth := 0; depth < 12; depth++ {
+		switch x := v.(type) {
+		case *ssa.FieldAddr:
+			suffix = "." + fieldName(x.X.Type(), x.Field) + suffix
+			v = x.X
+		case *ssa.Field:
+			suffix = "." + fieldName(x.X.Type(), x.Field) + suffix
+			v = x.X
+		case *ssa.UnOp:
+			if x.Op != token.MUL {
+				return ""
+			}
+			v = x.X
+		case *ssa.TypeAssert:
+			v = x.X
+		case *ssa.ChangeType:
+			v = x.X
+		case *ssa.MakeInterface:
+			v = x.X
+		case *ssa.Extract:
+			suffix = fmt.Sprintf("#%d", x.Index) + suffix
+			v = x.Tuple
+		case *ssa.Call, *ssa.Alloc, *ssa.MakeSlice, *ssa.MakeMap:
+			if suffix == "" {
+				return ""
+			}
+			return "@" + v.Name() + suffix
+		default:
+			return ""
+		}
+	}
+	return ""
 }
